@@ -224,7 +224,7 @@ def compare(actual, expected, rel=1e-9, scale=1.0):
     """-> list of mismatching accessor names with (actual, expected)"""
     bad = []
     for k, ev in expected.items():
-        if k not in actual or ev == "skip":
+        if k not in actual or k.startswith("_") or isinstance(ev, (list, str)):
             continue
         av = actual[k]
         if ev is None:
